@@ -18,6 +18,7 @@ Act(ev) ==
     [] ev.op = "confirm_twocb"     -> ConfirmTwoCoinbase(ev.p)
     [] ev.op = "confirm_removed"   -> ConfirmOnRemoved(ev.p)
     [] ev.op = "truncate"          -> Truncate(ev.t)
+    [] ev.op = "restart"           -> Restart
 
 (* C06: a ledger reopened on the image after any prefix of the operation's storage writes answers either like the
    ledger before the operation (projected over the blocks known then) or like the ledger after it: every ledger
